@@ -350,6 +350,606 @@ class IoTr:
         return f"{self.header()}\n\n{self.signature()}\n  PyIO.Out.fuelOut"
 
 
+
+# ================================================================================================
+# classes: methods over an object-state record (runtime: lean/Plotink/PyObj.lean)
+# ================================================================================================
+# (module file, class name) in base-before-derived order; every method of these classes is translated
+CLASSES = [
+    ('ebb3_serial.py', 'EBB3'),
+    ('ebb3_motion.py', 'EBBMotionWrap'),
+]
+OBJ = 'EBB3_Obj'                 # the attribute record shared by the classes above (one inheritance chain)
+EXC.update({'serial.serialutil.PortNotOpenError': 'portNotOpenError', 'serial.serialutil.SerialException': 'serialException',
+            'serial.serialutil.SerialTimeoutException': 'serialTimeoutException', 'InvalidVersion': 'invalidVersion',
+            'OverflowError': 'overflowError'})
+
+
+class ClassInfo:
+    def __init__(self, mod, node):
+        self.mod, self.name, self.node = mod, node.name, node
+        self.bases = [dotted(b).split('.')[-1] for b in node.bases if dotted(b)]
+        self.methods = {n.name: n for n in node.body if isinstance(n, ast.FunctionDef)}
+        self.consts = {}
+        for st in node.body:
+            if isinstance(st, ast.Assign) and len(st.targets) == 1 and isinstance(st.targets[0], ast.Name) \
+                    and isinstance(st.value, ast.Constant):
+                self.consts[st.targets[0].id] = st.value
+
+
+def resolve(classes, cname, meth):
+    """(defining class, FunctionDef) of `meth` looked up from class `cname` along the (single) inheritance chain"""
+    c = classes.get(cname)
+    while c is not None:
+        if meth in c.methods:
+            return c, c.methods[meth]
+        c = classes.get(c.bases[0]) if c.bases else None
+    return None, None
+
+
+def class_const(classes, cname, attr):
+    c = classes.get(cname)
+    while c is not None:
+        if attr in c.consts:
+            return c.consts[attr]
+        c = classes.get(c.bases[0]) if c.bases else None
+    return None
+
+
+def obj_fields(classes):
+    """attributes assigned through `self.X = …` anywhere in the classes, `__init__` of the base first"""
+    out = []
+    for c in classes.values():
+        order = (['__init__'] if '__init__' in c.methods else []) + [m for m in c.methods if m != '__init__']
+        for m in order:
+            fn = c.methods[m]
+            for x in sorted((x for x in ast.walk(fn) if isinstance(x, ast.Attribute)), key=lambda x: (x.lineno, x.col_offset)):
+                if isinstance(x.ctx, ast.Store) and isinstance(x.value, ast.Name) and x.value.id == 'self' and x.attr not in out:
+                    out.append(x.attr)
+    return out
+
+
+class MethTr:
+    """one method -> definitions over PyObj combinators; `fuel` and `env` are in scope in every expression"""
+
+    def __init__(self, classes, cinfo, fn, fields):
+        self.classes, self.c, self.fn, self.fields = classes, cinfo, fn, fields
+        self.g = f'{cinfo.name}_{fn.name}'
+        if fn.args.vararg or fn.args.kwarg or fn.args.kwonlyargs or fn.args.posonlyargs:
+            raise Unsupported('signature')
+        ps = [a.arg for a in fn.args.args]
+        if not ps or ps[0] != 'self':
+            raise Unsupported('not an instance method')
+        self.params = ps[1:]
+        self.locals = []
+        for x in sorted((x for x in ast.walk(fn) if isinstance(x, (ast.Name, ast.ExceptHandler))),
+                        key=lambda x: (x.lineno, x.col_offset)):
+            n = None
+            if isinstance(x, ast.Name) and isinstance(x.ctx, (ast.Store, ast.Del)):
+                n = x.id
+            elif isinstance(x, ast.ExceptHandler) and x.name:
+                n = x.name
+            if n is not None and n not in self.params and n not in self.locals and n != 'self':
+                self.locals.append(n)
+        # names rebound through `x.append(v)` count as assigned
+        self.rebound = set()
+        for x in ast.walk(fn):
+            if isinstance(x, ast.Name) and isinstance(x.ctx, (ast.Store, ast.Del)):
+                self.rebound.add(x.id)
+            if isinstance(x, ast.ExceptHandler) and x.name:
+                self.rebound.add(x.name)
+            if isinstance(x, ast.Expr) and self.is_append(x.value):
+                self.rebound.add(x.value.func.value.id)
+        self.aux, self.deps = [], []
+        self.nloop = self.ntry = self.nif = self.nfor = 0
+        self.env = f'{self.g}_Env'
+        self.depth = 0          # loop nesting (break / continue only inside)
+
+    # ---------------- helpers
+    def is_append(self, e):
+        return (isinstance(e, ast.Call) and isinstance(e.func, ast.Attribute) and e.func.attr == 'append'
+                and isinstance(e.func.value, ast.Name) and e.func.value.id != 'self' and len(e.args) == 1 and not e.keywords)
+
+    def const(self, v):
+        if isinstance(v, bool):
+            return f"(PyObj.ok (PyObj.Val.bool {'true' if v else 'false'}))"
+        if isinstance(v, int):
+            return f"(PyObj.ok (PyObj.Val.int ({v})))"
+        if isinstance(v, str):
+            return f"(PyObj.ok (PyObj.Val.str {lean_chars(v)}))"
+        if isinstance(v, bytes):
+            return f"(PyObj.ok (PyObj.Val.bytes {lean_chars(v)}))"
+        if v is None:
+            return "(PyObj.ok PyObj.Val.none)"
+        raise Unsupported(f'constant {v!r}')
+
+    def lit_val(self, v):
+        """a literal as a `PyObj.Val` (dict keys)"""
+        if isinstance(v, bool):
+            return f"(PyObj.Val.bool {'true' if v else 'false'})"
+        if isinstance(v, int):
+            return f"(PyObj.Val.int ({v}))"
+        if isinstance(v, str):
+            return f"(PyObj.Val.str {lean_chars(v)})"
+        raise Unsupported('dict key')
+
+    def kw(self, e, allowed):
+        """keywords of a call as a dict of constants; all must be in `allowed`"""
+        out = {}
+        for k in e.keywords:
+            if k.arg not in allowed or not isinstance(k.value, ast.Constant):
+                raise Unsupported(f'keyword {k.arg}')
+            out[k.arg] = k.value.value
+        return out
+
+    # ---------------- expressions: Lean text of type PyObj.Eff OBJ
+    def E(self, e):
+        if isinstance(e, ast.Constant):
+            return self.const(e.value)
+        if isinstance(e, ast.Name):
+            if e.id in self.params and e.id not in self.rebound:
+                return f"(PyObj.ok env.{ident(e.id)})"
+            if e.id in self.params or e.id in self.locals:
+                return f"(PyObj.load env.{ident(e.id)})"
+            raise Unsupported(f'free name {e.id}')
+        if isinstance(e, ast.Attribute):
+            if isinstance(e.value, ast.Name) and e.value.id == 'self':
+                if e.attr in self.fields:
+                    return f"(PyObj.getattr (·.{ident(e.attr)}))"
+                c = class_const(self.classes, self.c.name, e.attr)
+                if c is not None:
+                    return self.const(c.value)
+            raise Unsupported(f'attribute {dotted(e) or e.attr}')
+        if isinstance(e, ast.BoolOp):
+            op = 'PyObj.and_' if isinstance(e.op, ast.And) else 'PyObj.or_'
+            out = self.E(e.values[-1])
+            for v in reversed(e.values[:-1]):
+                out = f"({op} {self.E(v)} {out})"
+            return out
+        if isinstance(e, ast.UnaryOp) and isinstance(e.op, ast.Not):
+            return f"(PyObj.not_ {self.E(e.operand)})"
+        if isinstance(e, ast.UnaryOp) and isinstance(e.op, ast.USub) and isinstance(e.operand, ast.Constant) \
+                and isinstance(e.operand.value, int) and not isinstance(e.operand.value, bool):
+            return f"(PyObj.ok (PyObj.Val.int (-{e.operand.value})))"
+        if isinstance(e, ast.Compare):
+            if len(e.ops) != 1:
+                raise Unsupported('comparison chain')
+            op, l, r = e.ops[0], e.left, e.comparators[0]
+            if isinstance(op, (ast.Is, ast.IsNot)):
+                if not (isinstance(r, ast.Constant) and r.value is None):
+                    raise Unsupported('`is` with something other than None')
+                return f"(PyObj.app1 PyObj.{'op_is_none' if isinstance(op, ast.Is) else 'op_is_not_none'} {self.E(l)})"
+            names = {ast.Eq: 'op_eq', ast.NotEq: 'op_ne', ast.Lt: 'op_lt', ast.LtE: 'op_le', ast.Gt: 'op_gt',
+                     ast.GtE: 'op_ge', ast.In: 'op_in', ast.NotIn: 'op_not_in'}
+            if type(op) not in names:
+                raise Unsupported(f'comparison {type(op).__name__}')
+            return f"(PyObj.app2 PyObj.{names[type(op)]} {self.E(l)} {self.E(r)})"
+        if isinstance(e, ast.BinOp):
+            ops = {ast.Add: 'op_add', ast.Sub: 'op_sub', ast.Mult: 'op_mul'}
+            if type(e.op) not in ops:
+                raise Unsupported(f'binop {type(e.op).__name__}')
+            return f"(PyObj.app2 PyObj.{ops[type(e.op)]} {self.E(e.left)} {self.E(e.right)})"
+        if isinstance(e, ast.Tuple):
+            return "(PyObj.mkTuple [" + ", ".join(self.E(x) for x in e.elts) + "])"
+        if isinstance(e, ast.List):
+            return "(PyObj.mkList [" + ", ".join(self.E(x) for x in e.elts) + "])"
+        if isinstance(e, ast.Dict):
+            if not all(isinstance(k, ast.Constant) for k in e.keys):
+                raise Unsupported('dict with computed keys')
+            return ("(PyObj.mkDict [" + ", ".join(self.lit_val(k.value) for k in e.keys) + "] ["
+                    + ", ".join(self.E(v) for v in e.values) + "])")
+        if isinstance(e, ast.Subscript):
+            if isinstance(e.slice, ast.Slice):
+                if e.slice.step is not None:
+                    raise Unsupported('slice step')
+                lo = self.E(e.slice.lower) if e.slice.lower is not None else "(PyObj.ok PyObj.Val.none)"
+                hi = self.E(e.slice.upper) if e.slice.upper is not None else "(PyObj.ok PyObj.Val.none)"
+                return f"(PyObj.app3 PyObj.op_slice {self.E(e.value)} {lo} {hi})"
+            if isinstance(e.slice, ast.Tuple):
+                raise Unsupported('subscript')
+            return f"(PyObj.app2 PyObj.op_getitem {self.E(e.value)} {self.E(e.slice)})"
+        if isinstance(e, ast.JoinedStr):
+            parts = []
+            for v in e.values:
+                if isinstance(v, ast.Constant) and isinstance(v.value, str):
+                    parts.append(self.const(v.value))
+                elif isinstance(v, ast.FormattedValue) and v.conversion == -1 and v.format_spec is None:
+                    parts.append(self.E(v.value))
+                else:
+                    raise Unsupported('f-string field with conversion / format spec')
+            return "(PyObj.fstr [" + ", ".join(parts) + "])"
+        if isinstance(e, ast.Call):
+            return self.call(e)
+        raise Unsupported(f'expression {type(e).__name__}')
+
+    def call(self, e):
+        f = e.func
+        d = dotted(f)
+        A = e.args
+        n = len(A)
+        if isinstance(f, ast.Name) and f.id not in self.params and f.id not in self.locals:
+            if e.keywords:
+                raise Unsupported('keywords on a builtin')
+            simple1 = {'len': 'op_len', 'int': 'b_int', 'bool': 'b_bool', 'str': 'b_str', 'list': 'b_list',
+                       'range': 'b_range1', 'parse': 'b_parse_version'}
+            simple2 = {'int': 'b_int_base', 'max': 'b_max2', 'min': 'b_min2', 'range': 'b_range2'}
+            if f.id in simple1 and n == 1:
+                return f"(PyObj.app1 PyObj.{simple1[f.id]} {self.E(A[0])})"
+            if f.id in simple2 and n == 2:
+                return f"(PyObj.app2 PyObj.{simple2[f.id]} {self.E(A[0])} {self.E(A[1])})"
+            if f.id == 'comports' and n == 0:
+                return "PyObj.ext_comports"
+            if f.id == 'find_named' and n == 1:
+                return f"(PyObj.eff1 PyObj.ext_find_named {self.E(A[0])})"
+            raise Unsupported(f'call of {f.id}')
+        if d == 'int.from_bytes' and n == 1:
+            if self.kw(e, ('byteorder', 'signed')) != {'byteorder': 'big', 'signed': True}:
+                raise Unsupported('from_bytes variant')
+            return f"(PyObj.app1 PyObj.b_from_bytes_big_signed {self.E(A[0])})"
+        if d == 'serial.Serial' and n >= 1:
+            self.kw(e, ('timeout', 'baudrate', 'write_timeout'))
+            return f"(PyObj.eff1 PyObj.ext_serial_open {self.E(A[0])})"
+        if d is not None and (d == 'time.sleep' or (d.split('.')[0] in ('logger', 'logging') and d.split('.')[-1] in LOG_LEVELS)):
+            args = [self.E(a) for a in A] + [self.E(k.value) for k in e.keywords]
+            return "(PyObj.dropCall [" + ", ".join(args) + "])"
+        if not isinstance(f, ast.Attribute):
+            raise Unsupported('callee')
+        # ---- a method of this object
+        if isinstance(f.value, ast.Name) and f.value.id == 'self':
+            dc, dfn = resolve(self.classes, self.c.name, f.attr)
+            if dfn is None:
+                raise Unsupported(f'unknown method self.{f.attr}')
+            ps = [a.arg for a in dfn.args.args][1:]
+            dmap = dict(zip(ps[len(ps) - len(dfn.args.defaults):], dfn.args.defaults))
+            bound = {}
+            if n > len(ps):
+                raise Unsupported('too many arguments')
+            for p_, a in zip(ps, A):
+                bound[p_] = self.E(a)
+            for k in e.keywords:
+                if k.arg not in ps or k.arg in bound:
+                    raise Unsupported('bad keyword')
+                bound[k.arg] = self.E(k.value)
+            args = []
+            for p_ in ps:
+                if p_ in bound:
+                    args.append(bound[p_])
+                elif p_ in dmap and isinstance(dmap[p_], ast.Constant):
+                    args.append(self.const(dmap[p_].value))
+                else:
+                    raise Unsupported(f'missing argument {p_}')
+            if len(args) > 3:
+                raise Unsupported('more than three arguments in a method call')
+            callee = f'{dc.name}_{f.attr}'
+            if callee == self.g:
+                raise Unsupported('recursive method')
+            if callee not in self.deps:
+                self.deps.append(callee)
+            return f"(PyObj.mcall{len(args)} ({callee} fuel)" + "".join(" " + a for a in args) + ")"
+        if isinstance(f.value, ast.Name) and f.value.id not in self.params and f.value.id not in self.locals:
+            raise Unsupported(f'call of {d}')
+        # ---- a method of a value
+        recv, m = self.E(f.value), f.attr
+        if m == 'to_bytes' and n == 1:
+            if not (isinstance(A[0], ast.Constant) and A[0].value == 4) or \
+                    self.kw(e, ('byteorder', 'signed')) != {'byteorder': 'big', 'signed': True}:
+                raise Unsupported('to_bytes variant')
+            return f"(PyObj.app1 PyObj.meth_to_bytes4_big_signed {recv})"
+        if e.keywords:
+            raise Unsupported('keywords on a method call')
+        if m == 'write' and n == 1:
+            return f"(PyObj.eff2 PyObj.meth_write {recv} {self.E(A[0])})"
+        if m in ('readline', 'close', 'reset_input_buffer') and n == 0:
+            return f"(PyObj.eff1 PyObj.meth_{m} {recv})"
+        if m in ('encode', 'decode') and n == 1:
+            if not (isinstance(A[0], ast.Constant) and isinstance(A[0].value, str)
+                    and A[0].value.lower().replace('-', '_') in ('ascii', 'us_ascii')):
+                raise Unsupported(f'{m} with a codec other than ascii')
+            return f"(PyObj.app2 PyObj.meth_{m} {recv} {self.E(A[0])})"
+        if m in ('strip', 'lower', 'upper', 'isspace', 'isalpha', 'isdigit') and n == 0:
+            return f"(PyObj.app1 PyObj.meth_{m} {recv})"
+        if m == 'startswith' and n == 1:
+            return f"(PyObj.app2 PyObj.meth_startswith {recv} {self.E(A[0])})"
+        if m == 'split' and n in (1, 2):
+            if not (isinstance(A[0], ast.Constant) and isinstance(A[0].value, str) and A[0].value):
+                raise Unsupported('split separator is not a literal')
+            sep = A[0].value
+            if n == 1 and len(sep) == 1:
+                return f"(PyObj.app1 (PyObj.meth_split_char {lean_char(sep)}) {recv})"
+            if n == 2 and isinstance(A[1], ast.Constant) and A[1].value == 1:
+                if len(sep) == 1:
+                    return f"(PyObj.app1 (PyObj.meth_split1_char {lean_char(sep)}) {recv})"
+                return f"(PyObj.app1 (PyObj.meth_split1_str {lean_chars(sep)}) {recv})"
+            raise Unsupported('split variant')
+        raise Unsupported(f'method {m}/{n}')
+
+    # ---------------- statements: Lean text of type PyObj.Stmt OBJ <Env>
+    def setter(self, name):
+        return f"(fun env v => {{ env with {ident(name)} := v }})"
+
+    def osetter(self, name):
+        return f"(fun o v => {{ o with {ident(name)} := v }})"
+
+    def X(self, text):
+        return f"(fun fuel env => {text})"
+
+    def sty(self):
+        return f"PyObj.Stmt {OBJ} {self.env}"
+
+    def S(self, s, ind):
+        pad = '  ' * ind
+        if isinstance(s, ast.Assign):
+            if len(s.targets) != 1:
+                raise Unsupported('multiple assignment targets')
+            t = s.targets[0]
+            if isinstance(t, ast.Name):
+                return f"{pad}(PyObj.assign {self.setter(t.id)} {self.X(self.E(s.value))})"
+            if isinstance(t, ast.Attribute) and isinstance(t.value, ast.Name) and t.value.id == 'self' and t.attr in self.fields:
+                return f"{pad}(PyObj.setattr {self.osetter(t.attr)} {self.X(self.E(s.value))})"
+            raise Unsupported('assignment target')
+        if isinstance(s, ast.AugAssign):
+            ops = {ast.Add: 'op_add', ast.Sub: 'op_sub', ast.Mult: 'op_mul'}
+            if type(s.op) not in ops or not isinstance(s.target, ast.Name):
+                raise Unsupported('augmented assignment')
+            cur = self.E(ast.Name(id=s.target.id, ctx=ast.Load()))
+            return (f"{pad}(PyObj.assign {self.setter(s.target.id)} "
+                    f"{self.X(f'(PyObj.app2 PyObj.{ops[type(s.op)]} {cur} {self.E(s.value)})')})")
+        if isinstance(s, ast.Expr):
+            if self.is_append(s.value):
+                nm = s.value.func.value.id
+                if nm not in self.params and nm not in self.locals:
+                    raise Unsupported('append to a non-local')
+                cur = self.E(ast.Name(id=nm, ctx=ast.Load()))
+                return (f"{pad}(PyObj.assign {self.setter(nm)} "
+                        f"{self.X(f'(PyObj.app2 PyObj.meth_append {cur} {self.E(s.value.args[0])})')})")
+            return f"{pad}(PyObj.expr {self.X(self.E(s.value))})"
+        if isinstance(s, ast.Pass):
+            return f"{pad}PyObj.pass"
+        if isinstance(s, (ast.Break, ast.Continue)):
+            if self.depth == 0:
+                raise Unsupported('break/continue outside a loop')
+            return f"{pad}PyObj.{'break_' if isinstance(s, ast.Break) else 'continue_'}"
+        if isinstance(s, ast.Return):
+            v = self.E(s.value) if s.value is not None else "(PyObj.ok PyObj.Val.none)"
+            return f"{pad}(PyObj.return_ {self.X(v)})"
+        if isinstance(s, ast.If):
+            self.nif += 1
+            k = self.nif
+            test = self.E(s.test)
+            a, b = self.B(s.body, 2), self.B(s.orelse, 2)
+            self.aux.append(f"def {self.g}_if{k} : {self.sty()} :=\n  PyObj.ifte (fun fuel env => {test})\n{a}\n{b}")
+            return f"{pad}{self.g}_if{k}"
+        if isinstance(s, ast.While):
+            if s.orelse:
+                raise Unsupported('while-else')
+            self.nloop += 1
+            k = self.nloop
+            test = self.E(s.test)
+            self.depth += 1
+            body = self.B(s.body, 1)
+            self.depth -= 1
+            self.aux.append(f"def {self.g}_test{k} : PyObj.Expr {OBJ} {self.env} :=\n  fun fuel env => {test}")
+            self.aux.append(f"def {self.g}_body{k} : {self.sty()} :=\n{body}")
+            self.aux.append(f"def {self.g}_loop{k} : {self.sty()} :=\n  PyObj.while_ {self.g}_test{k} {self.g}_body{k}")
+            return f"{pad}{self.g}_loop{k}"
+        if isinstance(s, ast.For):
+            if s.orelse or not isinstance(s.target, ast.Name):
+                raise Unsupported('for-else / tuple target')
+            self.nfor += 1
+            k = self.nfor
+            it = self.E(s.iter)
+            self.depth += 1
+            body = self.B(s.body, 1)
+            self.depth -= 1
+            self.aux.append(f"def {self.g}_fbody{k} : {self.sty()} :=\n{body}")
+            self.aux.append(f"def {self.g}_for{k} : {self.sty()} :=\n  PyObj.forIn {self.setter(s.target.id)} "
+                            f"(fun fuel env => {it}) {self.g}_fbody{k}")
+            return f"{pad}{self.g}_for{k}"
+        if isinstance(s, ast.Try):
+            if s.orelse or s.finalbody:
+                raise Unsupported('try with else/finally')
+            self.ntry += 1
+            k = self.ntry
+            body = self.B(s.body, 1)
+            hs = []
+            for h in s.handlers:
+                if h.type is None:
+                    classes = 'none'
+                else:
+                    elts = h.type.elts if isinstance(h.type, ast.Tuple) else [h.type]
+                    cs = []
+                    for c in elts:
+                        dd = dotted(c)
+                        if dd not in EXC:
+                            raise Unsupported(f'exception class {dd}')
+                        cs.append(f'.{EXC[dd]}')
+                    classes = '(some [' + ', '.join(cs) + '])'
+                bind = f'(some {self.setter(h.name)})' if h.name else 'none'
+                hs.append(f"   {{ classes := {classes}, bind := {bind}, body :=\n" + self.B(h.body, 3) + " }")
+            self.aux.append(f"def {self.g}_try{k} : {self.sty()} :=\n{body}")
+            self.aux.append(f"def {self.g}_handlers{k} : List (PyObj.Handler {OBJ} {self.env}) :=\n  [\n" + ",\n".join(hs) + "\n  ]")
+            return f"{pad}(PyObj.tryExcept {self.g}_try{k} {self.g}_handlers{k})"
+        raise Unsupported(f'statement {type(s).__name__}')
+
+    def B(self, stmts, ind):
+        pad = '  ' * ind
+        stmts = [s for s in stmts if not (isinstance(s, ast.Expr) and isinstance(s.value, ast.Constant)
+                                          and isinstance(s.value.value, str))]
+        if not stmts:
+            return f"{pad}PyObj.pass"
+        if len(stmts) == 1:
+            return self.S(stmts[0], ind)
+        return f"{pad}(PyObj.block [\n" + ",\n".join(self.S(s, ind + 1) for s in stmts) + f"\n{pad}])"
+
+    def header(self):
+        names = self.params + self.locals
+        if not names:
+            return f"structure {self.env} where\n  mk ::"
+        fields = "\n".join(f"  {ident(n)} : PyObj.Val" for n in names)
+        return f"structure {self.env} where\n{fields}"
+
+    def signature(self):
+        ps = "".join(f" ({ident(p)} : PyObj.Val)" for p in self.params)
+        return f"def {self.g} (fuel : Nat){ps} (w : PyObj.World {OBJ}) : PyObj.Out {OBJ} :="
+
+    def init_env(self):
+        names = self.params + self.locals
+        if not names:
+            return f"{self.env}.mk"
+        return "{ " + ", ".join([f"{ident(p)} := {ident(p)}" for p in self.params]
+                                + [f"{ident(n)} := PyObj.Val.unbound" for n in self.locals]) + " }"
+
+    def translate(self):
+        main = self.B(self.fn.body, 1)
+        parts = [self.header()] + self.aux + [
+            f"def {self.g}_main : {self.sty()} :=\n{main}",
+            f"{self.signature()}\n  PyObj.run {self.g}_main fuel {self.init_env()} w"]
+        return "\n\n".join(parts)
+
+    def stub(self):
+        return f"{self.header()}\n\n{self.signature()}\n  PyObj.Out.fuelOut"
+
+
+def generate_classes(repo, outdir, report):
+    classes = {}
+    for mod, cname in CLASSES:
+        try:
+            tree = ast.parse(open(os.path.join(repo, 'plotink', mod)).read())
+        except (SyntaxError, OSError):
+            tree = None
+        node = None
+        if tree is not None:
+            for n in tree.body:
+                if isinstance(n, ast.ClassDef) and n.name == cname:
+                    node = n
+        if node is not None:
+            classes[cname] = ClassInfo(mod, node)
+    fields = obj_fields(classes)
+
+    def emit(name, code, src, imports):
+        text = (f"-- GENERATED by translator/pyio2lean.py from {src}. Do not edit.\n"
+                + "".join(f"import {i}\n" for i in imports)
+                + "namespace Plotink\nnamespace Gen\nset_option linter.unusedVariables false\n\n"
+                + code + "\n\nend Gen\nend Plotink\n")
+        out = os.path.join(outdir, f"{name}.lean")
+        old = open(out).read() if os.path.exists(out) else None
+        if old != text:
+            with open(out, 'w') as f:
+                f.write(text)
+        return hashlib.sha256(text.encode()).hexdigest(), old is not None and old != text
+
+    flds = "\n".join(f"  {ident(a)} : PyObj.Val" for a in fields) if fields else "  mk ::"
+    initv = {}
+    for c in classes.values():
+        fn = c.methods.get('__init__')
+        for st in (fn.body if fn else []):
+            if isinstance(st, ast.Assign) and len(st.targets) == 1 and isinstance(st.targets[0], ast.Attribute) \
+                    and isinstance(st.targets[0].value, ast.Name) and st.targets[0].value.id == 'self' \
+                    and isinstance(st.value, ast.Constant) and st.value.value is None:
+                initv[st.targets[0].attr] = 'PyObj.Val.none'
+    init = ", ".join(f"{ident(a)} := {initv.get(a, 'PyObj.Val.unbound')}" for a in fields)
+    code = (f"/-- the attributes of an object of the classes {', '.join(c for _, c in CLASSES)} "
+            f"(every `self.X = …` in their methods; `__init__` first) -/\nstructure {OBJ} where\n{flds}\n\n"
+            f"/-- a fresh object: attributes `__init__` sets to `None`; any other attribute is not there yet -/\n"
+            f"def {OBJ}.init : {OBJ} := {{ {init} }}")
+    sha, ch = emit(OBJ, code, 'the classes ' + ', '.join(f'plotink/{m}:{c}' for m, c in CLASSES), ['Plotink.PyObj'])
+    report[OBJ] = {'module': CLASSES[0][0], 'status': 'ok' if classes else 'missing', 'deps': [], 'fields': fields,
+                   'sha256': sha, 'changed': ch}
+    # every method except `__init__`, callees before callers
+    todo = []
+    for cname, c in classes.items():
+        for m, fn in c.methods.items():
+            if m != '__init__':
+                todo.append((c, fn))
+    done, order = set(), []
+    trs = {}
+
+    def visit(c, fn, stack):
+        g = f'{c.name}_{fn.name}'
+        if g in done:
+            return
+        done.add(g)
+        status, deps, defaults = 'ok', [], {}
+        try:
+            tr = MethTr(classes, c, fn, fields)
+            code = tr.translate()
+            deps = tr.deps
+            ps = [a.arg for a in fn.args.args][1:]
+            for p, d in zip(ps[len(ps) - len(fn.args.defaults):], fn.args.defaults):
+                defaults[p] = ast.unparse(d)
+        except Unsupported as ex:
+            status = f'unsupported: {ex}'
+            try:
+                code = MethTr(classes, c, fn, fields).stub()
+            except Unsupported:
+                code = f"def {g}_missing : Bool := true"
+            deps = []
+        for dname in deps:
+            dc_name, dm = dname.split('_', 1)
+            dc = classes[dc_name]
+            visit(dc, dc.methods[dm], stack + [g])
+        trs[g] = (c, fn, code, status, deps, defaults)
+        order.append(g)
+
+    for c, fn in todo:
+        visit(c, fn, [])
+    for g in order:
+        c, fn, code, status, deps, defaults = trs[g]
+        sha, ch = emit(g, code, f'plotink/{c.mod}:{c.name}.{fn.name}',
+                       ['Plotink.PyObj', f'Plotink.Gen.{OBJ}'] + [f'Plotink.Gen.{d}' for d in deps])
+        report[g] = {'module': c.mod, 'class': c.name, 'function': fn.name, 'status': status, 'deps': deps,
+                     'params': [a.arg for a in fn.args.args][1:], 'defaults': defaults, 'sha256': sha, 'changed': ch}
+    # files of methods that are no longer in the source are removed (a proof that refers to them stops building)
+    prefixes = tuple(c + '_' for _, c in CLASSES)
+    for fname in os.listdir(outdir):
+        if fname.endswith('.lean') and fname.startswith(prefixes) and fname[:-5] not in report \
+                and not fname.endswith('_dispatch.lean'):
+            os.remove(os.path.join(outdir, fname))
+    # dispatch by method name on an object of the most derived class (for the driver)
+    if classes:
+        top = CLASSES[-1][1]
+        names, c = [], classes.get(top)
+        chain = []
+        while c is not None:
+            chain.append(c)
+            c = classes.get(c.bases[0]) if c.bases else None
+        for c in reversed(chain):
+            for m in c.methods:
+                if m != '__init__' and m not in names:
+                    names.append(m)
+        alts, imps = [], []
+        for m in names:
+            dc, dfn = resolve(classes, top, m)
+            g = f'{dc.name}_{m}'
+            if g not in report:
+                continue
+            imps.append(g)
+            ps = [a.arg for a in dfn.args.args][1:]
+            dfl = dfn.args.defaults
+            consts = [d for d in dfl if isinstance(d, ast.Constant)]
+            ndef = len(dfl) if len(consts) == len(dfl) else 0
+            for k in range(len(ps) - ndef, len(ps) + 1):
+                pat = "[" + ", ".join(f"a{i}" for i in range(k)) + "]"
+                rest = []
+                for i in range(k, len(ps)):
+                    v = dfl[i - (len(ps) - len(dfl))].value
+                    rest.append("PyObj.Val.none" if v is None else
+                                f"(PyObj.Val.bool {'true' if v else 'false'})" if isinstance(v, bool) else
+                                f"(PyObj.Val.int ({v}))" if isinstance(v, int) else
+                                f"(PyObj.Val.str {lean_chars(v)})")
+                call = " ".join([g, "fuel"] + [f"a{i}" for i in range(k)] + rest + ["w"])
+                alts.append(f'  | "{m}", {pat} => some ({call})')
+        code = (f"/-- call of a method of `{top}` by its Python name (inherited methods resolved along the class chain,\n"
+                f"trailing parameters with constant defaults may be omitted) -/\n"
+                f"def {top}_dispatch (fuel : Nat) (name : String) (args : List PyObj.Val) (w : PyObj.World {OBJ}) :\n"
+                f"    Option (PyObj.Out {OBJ}) :=\n  match name, args with\n" + "\n".join(alts) + "\n  | _, _ => none\n\n"
+                f"def {top}_methods : List String :=\n  [" + ", ".join(f'"{m}"' for m in names) + "]")
+        sha, ch = emit(f'{top}_dispatch', code, f'the methods of plotink/{classes[top].mod}:{top} and its bases',
+                       ['Plotink.PyObj', f'Plotink.Gen.{OBJ}'] + [f'Plotink.Gen.{g}' for g in imps])
+        report[f'{top}_dispatch'] = {'module': classes[top].mod, 'status': 'ok', 'deps': imps, 'sha256': sha, 'changed': ch}
+    return report
+
+
 def gen_name(mod, name):
     return f"{os.path.splitext(mod)[0]}_{name}"
 
@@ -397,6 +997,7 @@ def generate(repo, outdir):
                 f.write(text)
         report[g] = {'module': mod, 'function': name, 'status': status, 'deps': [], 'defaults': defaults,
                      'sha256': hashlib.sha256(text.encode()).hexdigest(), 'changed': old is not None and old != text}
+    generate_classes(repo, outdir, report)
     with open(os.path.join(outdir, 'io_report.json'), 'w') as f:
         json.dump(report, f, indent=1, sort_keys=True)
     return report
